@@ -314,6 +314,14 @@ def leaf_contracts():
                        ensures={"is_the_number_of_data_lines_in_the_file": "same(self.value, self.matcher.csvpath._line_monitor._data_end_line_count)"},
                        inline=INL + ["LineMonitor.data_end_line_count"], property_clauses={"is_the_number_of_data_lines_in_the_file": "C03"}, **pos,
                        **{k: v for k, v in base.items() if k != "inline"}))
+    cs.append(Contract(target=f"{FN}/counting/count_headers.py::CountHeaders._produce_value",
+                       types={"skip": "none", "self.value": "val", "self.name": "str", "self.matcher.csvpath._headers": "list[str]", "self.matcher._line": "list[str]"},
+                       modifies=["self.value"], returns="none",
+                       ensures={"count_headers_is_the_number_of_headers": "implies(self.name == 'count_headers', self.value == len(self.matcher.csvpath._headers))",
+                                "count_headers_in_line_is_the_number_of_cells_of_the_current_line": "implies(self.name == 'count_headers_in_line', self.value == len(self.matcher._line))"},
+                       inline=INL + ["CsvPath.headers", "Matcher.line"],
+                       property_clauses={"count_headers_is_the_number_of_headers": "C03", "count_headers_in_line_is_the_number_of_cells_of_the_current_line": "C03"},
+                       **{k: v for k, v in base.items() if k != "inline"}))
     cs.append(Contract(target=f"{FN}/counting/count_scans.py::CountScans._produce_value",
                        types={"skip": "none", "self.value": "val"}, modifies=["self.value"], returns="none",
                        ensures={"is_the_scan_count": "same(self.value, self.matcher.csvpath.scan_count)"},
